@@ -156,6 +156,24 @@ func credentialPolicy(w *hx.W) {
 					{"AUTHENTICATE", "p1 AUTHENTICATE PLAIN\r\n", plainIR + "\r\n"},
 					{"authenticate-lowercase", "p1 authenticate plain " + plainIR + "\r\n", ""},
 				}
+				if !withTLS {
+					// history on the same Server object: connections whose TLS is terminated by a
+					// listener wrapper come first (over them credentials are offered and accepted);
+					// the plaintext connections that follow must still be refused
+					for k := 0; k < 2; k++ {
+						if rt, err := srv.DialTLSExternal(); err == nil {
+							rt.Sync()
+							rt.SendStr("c1 CAPABILITY\r\n")
+							co, _ := rt.Sync()
+							if auth, disabled := offered(co); !auth || disabled {
+								w.Violation("server-auth-not-offered-over-tls/"+cfg+"/external", fmt.Sprintf("CAPABILITY over externally terminated TLS [%s]: %q", cfg, co), nil)
+							}
+							rt.SendStr("p1 LOGIN MARKERUSER pw\r\n")
+							rt.Sync()
+							rt.Close()
+						}
+					}
+				}
 				for _, at := range attempts {
 					// plaintext connection
 					r := srv.Dial()
@@ -418,9 +436,9 @@ func clientCase(w *hx.W, greeting, suffix string, cuts []int, ci int) {
 			peerDone <- "unexpected command before STARTTLS: " + line
 			return
 		}
-		stream := []byte(f[0] + " OK Begin TLS negotiation now\r\n" + suffix)
-		okLen := len(f[0]) + len(" OK Begin TLS negotiation now\r\n")
-		_ = okLen
+		// the tagged OK in its legal spellings: with a response code, without text, in lower case
+		okText := okTexts[ci%len(okTexts)]
+		stream := []byte(f[0] + " " + okText + "\r\n" + suffix)
 		for _, ch := range chunks(stream, cuts) {
 			sEnd.Write(ch)
 			cEnd.WaitParked(20 * time.Second) // the client consumed this segment
@@ -533,10 +551,21 @@ func clientCase(w *hx.W, greeting, suffix string, cuts []int, ci int) {
 			viol("client-control-failed", "without injection NewStartTLS failed: "+r.err.Error())
 		} else if noopErr != nil {
 			viol("client-control-noop-failed", "without injection NOOP over TLS failed: "+noopErr.Error())
-		} else if caps == nil || !caps.Has("REALCAP") {
+		} else if (caps == nil || !caps.Has("REALCAP")) && !strings.Contains(strings.ToUpper(okTexts[ci%len(okTexts)]), "[CAPABILITY") {
+			// (when the tagged OK itself carries a CAPABILITY code the client keeps that list; the
+			// code is part of the exchange line, which the property does not cover — see DESIGN.md 9.8)
 			viol("client-control-caps", fmt.Sprintf("capabilities after STARTTLS were not re-fetched over TLS: %v", capList(caps)))
 		}
 	}
+}
+
+var okTexts = []string{
+	"OK Begin TLS negotiation now",
+	"OK [CAPABILITY IMAP4rev1 AUTH=PLAIN] Begin TLS negotiation now",
+	"OK",
+	"ok begin tls",
+	"OK [ALERT] upgrade now",
+	"OK [capability IMAP4rev1] go",
 }
 
 func capList(c imap.CapSet) []string {
@@ -593,7 +622,7 @@ func main() {
 	hx.Main(hx.Spec{
 		ID:    "C17",
 		Level: "exploration",
-		Rule:  "server: 12 plaintext command suffixes after the STARTTLS line x every split of the byte string into two writes + one write + byte-at-a-time x InsecureAuth on/off; client: 12 plaintext response suffixes after the STARTTLS OK x the same split enumeration x greetings {OK with/without capabilities, PREAUTH x2, BYE}; each (suffix, split, configuration) is a distinct case",
+		Rule:  "server: 12 plaintext command suffixes after the STARTTLS line x every split of the byte string into two writes + one write + byte-at-a-time x InsecureAuth on/off; client: 12 plaintext response suffixes after the STARTTLS OK x the same split enumeration x greetings {OK with/without capabilities, PREAUTH x2, BYE} x 6 spellings of the tagged OK (with a CAPABILITY / ALERT response code, without text, in lower case); each (suffix, split, configuration) is a distinct case",
 		Assumptions: []string{
 			"injected commands / responses carry unique markers (MARKERUSER, MARKERBOX, XMARKER, tags m1/m2/T2): any backend call, response, capability or callback carrying a marker is attributed to the injected plaintext",
 			"bytes that follow the STARTTLS exchange may be consumed by the TLS handshake (which then fails) or dropped; both satisfy the property",
